@@ -462,7 +462,7 @@ class AIPDDLConverter:
         params = OrderedDict((v.name, self._variable_type(v)) for v in function.terms)
         f = Fluent(function.name, self._tm.RealType(), **params)
         self._fluents[function.name] = f
-        self._up_problem.add_fluent(f, default_initial_value=self._em.Int(0))
+        self._up_problem.add_fluent(f)
 
     def _convert_fluents(self):
         for pred in self._domain.predicates:
@@ -669,11 +669,15 @@ class AIPDDLConverter:
 
         up_action = InstantaneousAction(action.name, **action_parameters)
 
-        up_action.add_precondition(
-            self._expression_converter.convert_expression(
-                action.precondition, action_parameters_expression, {}
+        # the pddl package represents an empty precondition, `:precondition ()`,
+        # with an empty disjunction; it must not be read as `false`
+        precondition = action.precondition
+        if not (isinstance(precondition, Or) and len(precondition.operands) == 0):
+            up_action.add_precondition(
+                self._expression_converter.convert_expression(
+                    precondition, action_parameters_expression, {}
+                )
             )
-        )
 
         for e in self._convert_effects(
             action_parameters_expression, action.effect, action.name
